@@ -13,7 +13,9 @@ pub fn wide_usizes(small: usize) -> Vec<usize> {
         }
         let p = 1usize << k;
         for d in 0..=small {
-            v.push(p - d);
+            if d <= p {
+                v.push(p - d);
+            }
             v.push(p.wrapping_add(d));
         }
     }
